@@ -395,6 +395,15 @@ def run(ck, facts, tier):
                      "%s:%d" % (fw["file"], fw["line"]), sample="FXRate::try_new(lhs, rhs, rate, settlement)")
         except Unsupported as e:
             ck.fail(r9, "FXRate::new_py", "rule could not be established (%s)" % e, "%s:%d" % (fw["file"], fw["line"]))
+    # ---------------- R09.10 identity of currencies and pairs
+    r10_ = ck.rule("R09.10", "a currency is its (interned) name and a pair is its ordered (lhs, rhs): `==` and the hash of Ccy and FXPair are the derived, field-by-field ones — "
+                             "eurusd and usdeur are different pairs (every guard, slot search and variable name above compares with them)", floor=4)
+    for ty in ("fx::rates::ccy::Ccy", "fx::rates::fxpair::FXPair"):
+        for ti, mac in (("std::cmp::PartialEq::eq", "PartialEq"), ("std::hash::Hash::hash", "Hash")):
+            rs = [rr for rr in facts.all_fns() if rr.get("trait_item") == ti and rr.get("self_ty") == ty]
+            key = "%s:%s" % (ty.rsplit("::", 1)[-1], mac)
+            ck.check(r10_, key, len(rs) == 1 and mac in (rs[0].get("mac") or []), "%s of %s is not the derived structural one (hand-written or missing)" % (mac, ty.rsplit("::", 1)[-1]),
+                     "%s:%d" % (rs[0]["file"], rs[0]["line"]) if rs else None, sample="#[derive(%s)]" % mac)
     # "rejected ... and never yield rates", "returned exactly as quoted" also after updates and derivative-order switches: the market's state rules (C10 R10.3-R10.6)
     # "invalid quote sets are rejected and never yield rates" also when they arrive as a stored market: the loader goes through try_new (C20 S20.2)
     from rules import c20
